@@ -845,33 +845,39 @@ def instances(tier, seed):
                             W=96, budget_s=1800, witness_every=5,
                             max_decisions=100000))
     strlen = 2 if tier == 'thorough' else 1
+    # classes whose path count explodes with 2-character strings / full
+    # VarInt ranges (measured: not finished within 3000 s on 16 loaded
+    # cores); they keep the quick-tier value domains in the thorough tier
+    HEAVY = ('PlayerListItemPacket', 'MapPacket', 'SpawnObjectPacket',
+             'JoinGamePacket', 'ExplosionPacket', 'MultiBlockChangePacket',
+             'SoundEffectPacket', 'RespawnPacket', 'ResourcePackSendPacket',
+             'SpawnPlayerPacket', 'ClientSettingsPacket')
     for direction, state, cname in all_classes():
-        heavy = cname in ('PlayerListItemPacket', 'MapPacket',
-                          'SpawnObjectPacket', 'JoinGamePacket',
-                          'ExplosionPacket', 'MultiBlockChangePacket',
-                          'SoundEffectPacket', 'RespawnPacket')
+        heavy = cname in HEAVY
         out.append(Instance(
             '%s.%s.%s' % (direction, state, cname), 'generic',
             {'direction': direction, 'state': state, 'cname': cname,
              'strlen': 1 if heavy else strlen,
-             'lite': tier != 'thorough'}, W=96,
+             'lite': tier != 'thorough' or heavy}, W=96,
             budget_s=3000, witness_every=5 if heavy else 1,
             max_decisions=100000))
     for direction, state, cname in all_classes():
+        heavy = cname in HEAVY
         out.append(Instance(
             'repr:%s.%s.%s' % (direction, state, cname), 'generic',
             {'direction': direction, 'state': state, 'cname': cname,
-             'strlen': 1, 'lite': tier != 'thorough', 'repr_only': True,
+             'strlen': 1, 'lite': tier != 'thorough' or heavy,
+             'repr_only': True,
              # the textual form of this class formats the protocol number
-             # itself (one fork per version): releases only in the quick tier
-             'versions': 'release' if cname == 'SpawnObjectPacket' and
-             tier != 'thorough' else 'supported'},
+             # itself (one fork per version): releases only
+             'versions': 'release' if cname == 'SpawnObjectPacket'
+             else 'supported'},
             W=96, budget_s=3000, witness_every=7, max_decisions=100000))
     nprog = 120 if tier == 'thorough' else 20
     for first in range(0, nprog, 5):
         out.append(Instance('userdef:%d-%d' % (first, first + 4), 'userdef',
                             {'seed': seed, 'first': first, 'count': 5,
-                             'lite': tier != 'thorough'},
+                             'lite': True},
                             W=96, budget_s=1800, witness_every=3))
     out.append(Instance('sentinel:generic', 'generic',
                         {'direction': 'clientbound', 'state': 'play',
